@@ -27,7 +27,7 @@ TaskClassIface = Iface('TaskClassIface', methods={'__call__': Meth(ret=_new_task
 CtxIface = Iface('CtxIface', props={'name': Prop(Str)})
 PCfgIface = Iface('PCfgIface', classes=('taskchain.chain:TaskParameterConfig',),
                   props={'repr_name_without_namespace': Prop(Str), 'context': Prop(Abs(CtxIface, 'config.context')), 'name': Prop(Str), 'namespace': Prop(Opt(Str))})
-NCfgIface = Iface('NCfgIface', classes=('taskchain.config:Config',), props={'repr_name_without_namespace': Prop(Str)})
+NCfgIface = Iface('NCfgIface', classes=('taskchain.config:Config',), props={'repr_name': Prop(Str), 'repr_name_without_namespace': Prop(Str)})
 ChainLogHandler = U('Handler')
 
 
@@ -45,7 +45,7 @@ def ct_param_mode(task_class, config, task_registry, old_task_registry, result, 
 
 def ct_name_mode(task_class, config, task_registry, old_task_registry, result, trace):
     new = trace.ret('__call__')
-    k = (new.slugname, config.repr_name_without_namespace)
+    k = (new.slugname, config.repr_name)        # the namespace is part of the key: one file mounted twice gives two tasks (F1)
     hit = len(old_task_registry) > 0 and k in old_task_registry
     return (hit and result == old_task_registry[k] and same_map(task_registry, old_task_registry)) or \
            ((not hit) and result == new and task_registry[k] == new)
